@@ -360,3 +360,40 @@ PROPS["C16"] = dict(
                "harness comparison of the two same-seed traces.",
     rule="impl->spec: one history per run: smp_new, smp_step x steps, smp_det; distinct_nontrivial = distinct step events.",
     assumptions=["StdRng::seed_from_u64 seeds derived from VERIF_SEED", "sequences are configured with wrap >= width (in contract)"])
+
+
+def _dist_mc():
+    return [dict(name="MC_Dist", module="MC_Dist", invariants=["ConvIsEnum", "TotalMass", "MemeOK"], actions=["Pick"], workers=2,
+                 constants=dict(G=4), quick=dict(MaxM=2, CellVals="{0, 1, 6}"), thorough=dict(MaxM=2, CellVals="{0, 1, 3, 6}"))]
+PROPS["C11"] = dict(mc=_dist_mc(), record=True, trace="Trace_C11", shards=12,
+    level_text="D-layer: the exact score distribution of a background-distributed word as integer numerators over bd^M "
+               "(convolution, cross-checked against enumeration of all words in the bounded model). I-layer: the MEME-style "
+               "table of dist.rs (offset, scale, rounded integer matrix, pdf, survival function, index look-up) in exact "
+               "arithmetic, model-checked to satisfy Tail(s+d) <= pvalue(s) <= Tail(s-d) with d = (ceil(M/2)+1) steps and to "
+               "be monotone, for every small matrix. Recorded ScoreDistributions of real grid matrices (M = 1..8, uniform / "
+               "dyadic / decimal backgrounds): whole-table monotonicity and range, p-values of every attainable score +-1 "
+               "grid step, below min, above max, and p -> score -> p round trips are validated by TLC against the exact tail.",
+    level_note="Matrices on the 1/4 grid only (exact scores); non-grid log-odds matrices are not decided (numeric accuracy is "
+               "outside the technique). 'M/2+1' is read as ceil(M/2)+1 so that the check never demands more than the "
+               "statement. Decimal backgrounds: numerators rounded, one unit of slack. Python pvalue/score via C17. "
+               "Trusted: TLC, Json module.",
+    rule="impl->spec: one event per (matrix, background); distinct_nontrivial = distinct (matrix, background).",
+    assumptions=["finite non-wildcard entries, wildcard column -inf with background frequency 0"])
+PROPS["C12"] = dict(mc=_dist_mc(), record=True, trace="Trace_Tfm", shards=12,
+    level_text="Every refinement step of TfmPvalue::approximate_pvalue on real grid matrices (M = 2..6, uniform / dyadic / "
+               "decimal backgrounds; scores below the minimum, above the maximum, attainable, just above an attainable "
+               "value) is validated by TLC against the exact tail (D-layer convolution, model-checked against enumeration): "
+               "0 <= pmin <= pmax <= 1, P(S >= s+(M+1)g) <= pmin, pmax <= P(S >= s-(M+2)g); the last step is the final p-value.",
+    level_note="The TFM-PVALUE algorithm itself (recompute / distribution / lookup) is not transcribed as an I-model: the "
+               "decisive oracle is the exact tail, as the property states it. Matrices with (K-1)^M beyond 4^6 and non-grid "
+               "matrices are not decided. Trusted: TLC, Json module.",
+    rule="impl->spec: one event per (matrix, background, score) with all iterations; distinct_nontrivial = distinct queries.",
+    assumptions=["at most 6 refinement steps are recorded per query (granularity down to 1e-6)"])
+PROPS["C13"] = dict(mc=_dist_mc(), record=True, trace="Trace_Tfm", shards=12,
+    level_text="Every refinement step of TfmPvalue::approximate_score on real grid matrices (M = 2..6, three background "
+               "families, p over small fractions incl. 1/bd^M) is validated by TLC against the exact tail: with d = (M+2)g, "
+               "P(S >= t+d) <= p, and P(S >= u-d) >= p for the largest attainable u below t-d; thresholds are multiples of "
+               "the reported granularity.",
+    level_note="Same limits as C12. Trusted: TLC, Json module.",
+    rule="impl->spec: one event per (matrix, background, p) with all iterations; distinct_nontrivial = distinct queries.",
+    assumptions=["at most 6 refinement steps are recorded per query"])
